@@ -836,35 +836,33 @@ def drv_workload(case, rnd, ctx, S):
             inst.save(os.path.join(scratch, "inst-%d.bin" % i))
     elif what == "merge":
         from fontTools import merge
-        data = os.path.join(env.TESTS, "merge", "data")
-        sets = [["CFFFont1.ttx", "CFFFont2.ttx"], ["TTFont1.ttx", "TTFont2.ttx"]] if os.path.isdir(data) else []
-        cands = sorted(f for f in os.listdir(data)) if os.path.isdir(data) else []
-        ttfs = _small_fonts()
-        a, b = ttfs[(i * 5) % len(ttfs)], ttfs[(i * 5 + 1) % len(ttfs)]
+        pairs = [("ttx/data/TestTTF.ttf", "ttLib/data/Test-Regular.ttf"), ("voltLib/data/Nutso.ttf", "ttx/data/TestTTF.ttf"),
+                 ("ttx/data/TestTTF.ttf", "ttx/data/TestTTF.ttf"), ("voltLib/data/Empty.ttf", "ttLib/data/issue2824.ttf")]
+        a, b = pairs[i % len(pairs)]
         ctx.sample = {"workload": "merge", "fonts": [a, b]}
         try:
             with ctx.lib("merge", expected=(Exception,), skip_reason="merge rejected the pair"):
                 m = merge.Merger().merge([corpus.abspath(a), corpus.abspath(b)])
         except LibRaised:
             return
+        m.flavor = [None, "woff", "woff2"][i % 3]
         with ctx.lib("save"):
-            m.save(os.path.join(scratch, "merged-%d.ttf" % i))
+            m.save(os.path.join(scratch, "merged-%d.bin" % i))
     elif what == "varlib":
         from fontTools import varLib
-        from fontTools.ttLib import TTFont
-        ds = ["Build.designspace", "BuildAvarSingleAxis.designspace", "TestNonMarkingCFF2.designspace", "SparseMasters.designspace"][i % 4]
-        path = os.path.join(env.TESTS, "varLib", "data", ds)
+        ds = ["BuildAvarSingleAxis", "SparseMasters", "TestVVAR", "SparseCFF2", "DropOnCurves"][i % 5]
+        path = os.path.join(env.TESTS, "varLib", "data", ds + ".designspace")
         ctx.sample = {"workload": "varLib.build", "designspace": ds}
         if not os.path.exists(path):
             ctx.skip("designspace missing")
             return
+        root = os.path.join(env.TESTS, "varLib", "data")
 
         def finder(name):
-            base = os.path.basename(name)
-            for sub, ext in (("master_ttx_interpolatable_ttf", ".ttx"), ("master_ttx_interpolatable_otf", ".ttx"),
-                             ("master_non_marking_cff2", ".ttx"), ("master_sparse_masters", ".ttx")):
-                cand = os.path.join(env.TESTS, "varLib", "data", sub, os.path.splitext(base)[0] + ext)
-                if os.path.exists(cand):
+            base = os.path.splitext(os.path.basename(name))[0]
+            for sub in sorted(os.listdir(root)):
+                cand = os.path.join(root, sub, base + ".ttx")
+                if sub.startswith("master_") and os.path.exists(cand):
                     return cand
             return name
         try:
